@@ -1,0 +1,22 @@
+//go:build verif
+
+package file
+
+import "sync/atomic"
+
+var verifHook atomic.Value // func(site string)
+
+// SetVerifHook installs (or, with nil, removes) a callback that is invoked at
+// the memoisation sites of the multi-block file node. Verification builds only.
+func SetVerifHook(f func(site string)) {
+	if f == nil {
+		f = func(string) {}
+	}
+	verifHook.Store(f)
+}
+
+func verifAt(site string) {
+	if f, ok := verifHook.Load().(func(string)); ok {
+		f(site)
+	}
+}
